@@ -65,7 +65,7 @@ def main():
         obligations = len(names)
         ok, log = vlib.lean_build(mod.LEAN_TARGETS)
         if not ok:
-            ctx.broke('lake build ' + ' '.join(mod.LEAN_TARGETS), log[-3000:])
+            ctx.broke('lake build ' + ' '.join(mod.LEAN_TARGETS), log[:6000])
         else:
             ok2, axioms, problems = vlib.lean_audit(prop)
             for p in problems: ctx.broke('audit', p)
@@ -87,7 +87,9 @@ def main():
             # S3 correspondence
             mod.correspond(ctx)
             # S4 search when a tie or proof is broken and no concrete violation is known yet
-            if ((ctx.broken and not ctx.violations) or os.environ.get('VERIF_FORCE_SEARCH') == '1') and hasattr(mod, 'search'):
+            _known = {(k['property'], k['signature']) for k in vlib.load_known().get('findings', [])}
+            _new = [v for v in ctx.violations if (prop, v['signature']) not in _known]          # known findings do not count as a failing input
+            if ((ctx.broken and not _new) or os.environ.get('VERIF_FORCE_SEARCH') == '1') and hasattr(mod, 'search'):
                 mod.search(ctx, ctx.broken)
         stage('S3/S4 correspond+search')
     except Exception:
@@ -114,6 +116,20 @@ def main():
                                         'how_to_run': './check %s --replay <this file>' % prop})
         print('VIOLATION property=%s replay=%s  # %s' % (prop, path, v['what'][:200]))
         rc = 1
+    escalated = None
+    if ctx.broken and nviol == 0 and tier == 'quick' and not replay and os.environ.get('VERIF_NO_ESCALATE') != '1':
+        # before giving up: the thorough-tier exploration of the same property (different seed stream, far more inputs) as a last search
+        import subprocess
+        signal.alarm(0)
+        try:
+            r = subprocess.run([sys.executable, os.path.abspath(__file__), prop, '--tier', 'thorough'], capture_output=True, text=True,
+                               timeout=int(os.environ.get('VERIF_ESCALATE_TIMEOUT', '1800')),
+                               env=dict(os.environ, VERIF_NO_ESCALATE='1', VERIF_LEANCHECKER='0'))
+            escalated = [l for l in r.stdout.split('\n') if l.startswith('VIOLATION ') and 'no-failing-input-found' not in l]
+        except subprocess.TimeoutExpired:
+            escalated = []
+        for l in escalated:
+            print(l); nviol += 1; rc = 1
     if ctx.broken and nviol == 0:
         # a tie or a proof no longer checks and no failing input was found
         path = vlib.write_replay(prop, {'property': prop, 'seed': ctx.seed, 'tier': tier,
@@ -124,6 +140,7 @@ def main():
         nviol += 1
         rc = 1
     cov = dict(ctx.cov)
+    if escalated is not None: cov['escalated_to_thorough'] = {'violations_found': len(escalated)}
     cov.setdefault('obligations', obligations)
     cov.setdefault('discharged', discharged)
     cov.setdefault('checker_cmd', 'cd lean && lake build %s && lake env lean <#print axioms of every %s_* theorem>'
